@@ -110,10 +110,35 @@ def generate(rng, tier):
     base = len(cases)
     for k in range(dict(quick=6, thorough=200, search=20)[tier]):
         cases.append(['case %d rpc' % (base + k), 'wide %d %d' % (rng.choice([0, 1, 255, 65536, 2 ** 32 - 1, rng.below(2 ** 32)]), rng.choice([0, -1, 1, -2 ** 31, 2 ** 31 - 1, rng.below(2 ** 31)])), 'end'])
+    # frames over the WIRE (D33): the frame of a message - intact, truncated (below the trailer, below the fixed part, anywhere)
+    # or with one bit flipped - arrives in 1-4 chunks under an announced content-length that is absent, true, or a lie (small,
+    # huge, 2^63): the reader sizes nothing on the word of the peer; a bad frame is refused, no handler runs, nothing panics.
+    base = len(cases)
+    for k in range(dict(quick=40, thorough=1500, search=120)[tier]):
+        size = rng.choice([0, 1, 20, 200, 5000])
+        flen = 64 + size     # roughly; cut points beyond the end collapse
+        mut = rng.choice(['none', 'none', 'trunc:%d' % rng.choice([0, 1, 2, 3, 4, 5, 8, 40, 59, 60, rng.below(flen)]), 'flip:%d' % rng.below(8 * flen)])
+        cuts = ','.join(str(c) for c in sorted({rng.choice([1, 2, 3, rng.below(flen), rng.below(flen)]) for _ in range(rng.below(4))})) or '-'
+        declared = rng.choice(['-', '-', 'actual', 'actual', str(rng.below(2 * flen)), '1099511627776', '1152921504606846976', '9223372036854775807', '9223372036854775808', '18446744073709551614'])
+        cases.append(['case %d rpc' % (base + k), 'rawframe %d %d %s %s %s' % (rng.below(1 << 30), size, mut, cuts, declared), 'end'])
     return cases
 
 
+def augment(case, impl):
+    out = []
+    for l, o in zip(case, impl):
+        if l.startswith('rawframe') and ' frame=' in o:
+            out.append(l + ' frame=' + o.split(' frame=')[1].split()[0])
+        else:
+            out.append(l)
+    return out
+
+
 def canon(line, out):
+    if line.startswith('rawframe'):
+        t = out.split(' frame=')[0].split()
+        if len(t) >= 2 and t[1] in ('err:2', 'err:3'): t[1] = 'refused'      # an invalid payload, or the transport gave the stream up
+        return ' '.join(t)
     # value-level and end-to-end lines have no byte-level model counterpart
     return 'x' if line.split()[0] in ('roundtrip', 'roundtrip-narrow', 'roundtrip-status', 'echo', 'echo-burst', 'fail') else out
 
@@ -144,6 +169,16 @@ def oracle(case, impl):
                 bad.append('%s: value did not round-trip: %s' % (line, out))
             if d.get('flips_accepted') != '0': bad.append('%s: %s single-bit corruptions of the frame were accepted' % (line, d.get('flips_accepted')))
             if d.get('truncs_short_accepted') != '0': bad.append('%s: truncations below root+trailer accepted: %s' % (line, out))
+        elif t[0] == 'rawframe':
+            o = out.split()
+            d = kv(out)
+            f = bytes.fromhex(d['frame']) if d.get('frame', '-') != '-' else b''
+            valid = len(f) >= 4 + 56 and zlib.crc32(f[:-4]).to_bytes(4, 'little') == f[-4:]
+            if d.get('panics') != '0': bad.append('%s: %s panic(s) while the frame was read (%s)' % (line, d.get('panics'), o[1]))
+            if not valid:
+                if d.get('runs') != '0': bad.append('%s: a handler ran on a damaged or short frame' % line)
+                if o[1] not in ('err:2', 'err:3'): bad.append('%s: a damaged or short frame was not refused: %s' % (line, o[1]))
+            elif o[1] not in ('echo', 'err:2', 'err:3'): bad.append('%s: %s' % (line, o[1]))
         elif t[0] == 'echo':
             if out != 'echo same=true': bad.append('%s: %s' % (line, out))
         elif t[0] == 'echo-burst':
